@@ -203,10 +203,11 @@ def run(rep, tier):
 def check(tier):
     rep = Report("C08", tier, "other")
     declare(rep)
-    from . import c02
-    c02.param_lint(rep)
     io_array.declare_c08(rep)
     gs = run(rep, tier)
+    if not rep.violations:
+        from . import c02
+        c02.param_lint(rep)
     rep.assumptions = ["std::istream::read sets failbit when fewer bytes than requested are available (iostream contract), so 'state tested after every read' covers every truncation offset",
                        "streams that fail and later recover are not considered",
                        "a mis-typed stack is detected through its tags: distinct layers have distinct tags (C07.c) and the reader requires its own"]
